@@ -122,13 +122,18 @@ class Revision(UserString):
         return self.data >= other
 
 
+def _rev_cmp(rev1, rev2) -> int:
+    # revisions compare as integers; a missing revision (None or "") is 0
+    return cmp(int(rev1) if rev1 else 0, int(rev2) if rev2 else 0)
+
+
 def ver_cmp(ver1: str, rev1: str, ver2: str, rev2: str) -> int:
     # If the versions are the same, comparing revisions will suffice.
     if ver1 == ver2:
         # revisions are equal if 0 or None (versionless cpv)
         if not rev1 and not rev2:
             return 0
-        return cmp(rev1, rev2)
+        return _rev_cmp(rev1, rev2)
 
     # Split up the versions into dotted strings and lists of suffixes.
     parts1 = ver1.split("_")
@@ -237,7 +242,7 @@ def ver_cmp(ver1: str, rev1: str, ver2: str, rev2: str) -> int:
 
     # Our versions had different strings but ended up being equal.
     # The revision holds the final difference.
-    return cmp(rev1, rev2)
+    return _rev_cmp(rev1, rev2)
 
 
 class CPV(base.base):
